@@ -41,12 +41,16 @@ Definition res_nat_agree (m o : result nat) : bool := res_agree Nat.eqb m o.
 Definition pair_close (fr : mat4 Q * mat4 Q) (o : list fl * list fl) : bool :=
   mat4_close (fst fr) (fst o) && mat4_close (snd fr) (snd o).
 
+(* tolerance from the steps a query actually traverses: product over the selected steps of max(1, largest |entry| of
+   the matrix used), as the Python oracle does; times the size of the points for calls *)
+Definition steps_mag (sel : cstate (F:=Q)) (rev : bool) : Q :=
+  fold_left (fun a fr => a * Qmax' 1 (mat_mag (if rev then snd fr else fst fr))) sel 1.
 Definition check_query (st : cstate (F:=Q)) (q : query) : bool :=
-  let m1 := state_mag st in
   match q with
-  | QMatrix range rev o => list_close_mag (m1 * m1) (mlist (transform_matrix_for QOps st range rev)) o
+  | QMatrix range rev o =>
+      list_close_mag (steps_mag (selected st range) rev) (mlist (transform_matrix_for QOps st range rev)) o
   | QCall range rev discard asvec ps stack singles =>
-      let mag := m1 * m1 * pts_mag ps in
+      let mag := steps_mag (selected st range) rev * pts_mag ps in
       all2 (list_close_mag mag) (call_stack QOps st range rev discard asvec ps) stack &&
       all2 (list_close_mag mag) (map (call_single QOps st range rev discard asvec) ps) singles
   end.
